@@ -133,7 +133,7 @@ def mut(e):
 
 def run(ctx):
     ctx.mc("MC_ExtKey", core.cfg_of("MC_ExtKey.cfg"), label="12 versions + near misses x field corners (payload level); 111-char theorem")
-    events = core.build_events(ctx, gen_inputs(ctx))
+    events = core.build_events(ctx, gen_inputs(ctx) if ctx.quick else core.rounds(ctx, gen_inputs, 4))
     events += core.suite_events(ctx, ["tests/test_bip32.py", "tests/test_base_wallet.py", "tests/test_bip49.py", "tests/test_bip85.py"],
                                 ("ExtSer", "ExtParse", "Import"), len(events), limit=80 if ctx.quick else 1500)
     for e in events[:1] + events[5:6] + events[-1:]:
